@@ -1072,7 +1072,7 @@ fn main() {
 
     // ---------------- parsers ----------------
     let types = [T_IMAGE, T_EXT, T_CHUNK];
-    let n_valid = if thorough { 600 } else { 60 };
+    let n_valid = if thorough { 1500 } else { 150 };
     for i in 0..n_valid {
         let ptype = types[i % 3];
         let ls = LeaderSpec::random(&mut rng, ptype, &codes);
@@ -1202,7 +1202,7 @@ fn main() {
         "types": 3, "exhaustive_over_grid": true}));
 
     // (2) structured chunk layouts, intact and corrupted, sizes around every boundary
-    let rounds = if thorough { 40_000 } else { 4_000 };
+    let rounds = if thorough { 200_000 } else { 20_000 };
     for _ in 0..rounds {
         let ptype = *rng.pick(&[T_EXT, T_EXT, T_EXT, T_IMAGE, T_CHUNK]);
         let nchunks = 1 + rng.below(4) as usize;
